@@ -7,6 +7,9 @@ FUNCTIONS = ["LimitOrderBook.liq_price", "LimitOrderBook.acq_price", "LimitOrder
              "Broker.marking_to_market", "Broker.transact", "Broker.holdings_values", "Broker.net_liquidation_value",
              "Broker.holdings_weights", "Broker.context"]
 REPLAYERS = [
+    ("Broker.marking_to_market::", replayers.marking_to_market_post),
+    ("Broker.holdings_weights::", replayers.marking_to_market_post),
+    ("Broker.net_liquidation_value::ensures", replayers.marking_to_market_post),
     ("Broker.transact::lemma::nlv_delta", replayers.transact_nlv_delta),
     ("Broker.holdings_values::loop0::preserve::filled", replayers.holdings_values_liquidation),
 ]
